@@ -173,6 +173,60 @@ type blobSpec struct {
 	content  []byte
 }
 
+// preObs is what one verifier.Verify call made by notation.Verify returned.
+type preObs struct {
+	out     *notation.VerificationOutcome
+	err     error
+	touched bool
+}
+
+func copyMap(m map[string]string) map[string]string {
+	if m == nil {
+		return nil
+	}
+	c := make(map[string]string, len(m))
+	for k, v := range m {
+		c[k] = v
+	}
+	return c
+}
+
+func sameMap(a, b map[string]string) bool {
+	if (a == nil) != (b == nil) || len(a) != len(b) {
+		return false
+	}
+	for k, v := range a {
+		if w, ok := b[k]; !ok || w != v {
+			return false
+		}
+	}
+	return true
+}
+
+// frame is a deep snapshot of the caller-owned maps handed to a call.
+type frame struct {
+	names []string
+	objs  []map[string]string
+	snaps []map[string]string
+}
+
+func (f *frame) add(name string, m map[string]string) {
+	f.names = append(f.names, name)
+	f.objs = append(f.objs, m)
+	f.snaps = append(f.snaps, copyMap(m))
+}
+
+// changed names the maps the call changed.
+func (f *frame) changed() []string {
+	var out []string
+	for i := range f.objs {
+		if !sameMap(f.objs[i], f.snaps[i]) {
+			out = append(out, fmt.Sprintf("%s: %v -> %v", f.names[i], f.snaps[i], f.objs[i]))
+		}
+	}
+	return out
+}
+
 type kase struct {
 	Family  string            `json:"family"`
 	History string            `json:"history,omitempty"` // calls made on one long-lived verifier, in this order
@@ -193,6 +247,11 @@ type kase struct {
 	ObsDesc    *tgt   `json:"obs_descriptor,omitempty"`
 	ObsTouched bool   `json:"obs_touched"`
 	ObsMsg     string `json:"obs_error_text,omitempty"`
+	SharedMd   bool   `json:"metadata_map_shared_with_earlier_calls,omitempty"`
+	Via        string `json:"via,omitempty"`
+
+	mdObj map[string]string // the caller's map object handed to the call (Md = what the caller put into it)
+	pre   *preObs           // the call was made by notation.Verify; this is what it returned
 }
 
 type runner struct {
@@ -409,6 +468,136 @@ func (r *runner) history(name string, c cfg, steps []*kase) {
 	r.cw.Count("history", name)
 }
 
+// ---- notation.Verify over a scripted repository ----
+
+type c01Repo struct {
+	desc ocispec.Descriptor
+	sigs []*envelope
+}
+
+func (m *c01Repo) Resolve(ctx context.Context, reference string) (ocispec.Descriptor, error) {
+	return m.desc, nil
+}
+
+func (m *c01Repo) ListSignatures(ctx context.Context, desc ocispec.Descriptor, fn func([]ocispec.Descriptor) error) error {
+	var ms []ocispec.Descriptor
+	for i := range m.sigs {
+		ms = append(ms, ocispec.Descriptor{MediaType: mtManifest, Digest: digest.FromString(fmt.Sprint("c01 signature manifest ", i)), Size: int64(i)})
+	}
+	return fn(ms)
+}
+
+func (m *c01Repo) FetchSignatureBlob(ctx context.Context, desc ocispec.Descriptor) ([]byte, ocispec.Descriptor, error) {
+	i := int(desc.Size)
+	if i < 0 || i >= len(m.sigs) {
+		return nil, ocispec.Descriptor{}, errors.New("c01: no such signature")
+	}
+	e := m.sigs[i]
+	return e.bytes, ocispec.Descriptor{MediaType: e.Format, Digest: digest.FromBytes(e.bytes), Size: int64(len(e.bytes))}, nil
+}
+
+func (m *c01Repo) PushSignature(ctx context.Context, mediaType string, blob []byte, subject ocispec.Descriptor, annotations map[string]string) (ocispec.Descriptor, ocispec.Descriptor, error) {
+	return ocispec.Descriptor{}, ocispec.Descriptor{}, errors.New("c01: read-only repository")
+}
+
+// recOCI records what the real Verifier returned for every signature
+// notation.Verify handed to it (the outcome is copied at once: notation.Verify
+// rewrites outcome.Error afterwards).
+type recOCI struct {
+	v     notation.Verifier
+	in    *instr
+	sigs  [][]byte
+	descs []ocispec.Descriptor
+	obs   []*preObs
+}
+
+func (r *recOCI) Verify(ctx context.Context, desc ocispec.Descriptor, sig []byte, o notation.VerifierVerifyOptions) (*notation.VerificationOutcome, error) {
+	before := r.in.count()
+	out, err := r.v.Verify(ctx, desc, sig, o)
+	var cp *notation.VerificationOutcome
+	if out != nil {
+		c := *out
+		cp = &c
+	}
+	r.sigs = append(r.sigs, sig)
+	r.descs = append(r.descs, desc)
+	r.obs = append(r.obs, &preObs{out: cp, err: err, touched: r.in.count() > before})
+	return out, err
+}
+
+// listing runs ONE notation.Verify call over a repository that lists the
+// given signatures for the base artifact, with required metadata md (one map
+// object for the whole call, as notation.Verify hands it on). Every
+// verifier.Verify call it makes is a case of its own (kind oci, judged on the
+// metadata the caller required); that notation.Verify succeeds exactly when
+// one of them did, and leaves the caller's maps alone, is checked here.
+func (r *runner) listing(name string, c cfg, envs []*envelope, md map[string]string) {
+	first := r.id
+	want := false
+	for j := range envs {
+		if r.cw.Want(first + int64(j)) {
+			want = true
+		}
+	}
+	if !want {
+		for range envs {
+			r.id++
+			r.rng.Bool()
+			r.rng.Bool()
+		}
+		return
+	}
+	v, in, err := r.w.build(c, 2)
+	if err != nil {
+		panic(fmt.Sprintf("c01: listing %s: %v", name, err))
+	}
+	base := ocispec.Descriptor{MediaType: baseTarget.MT, Digest: digest.Digest(baseTarget.Dg), Size: baseTarget.Sz}
+	repo := &c01Repo{desc: base, sigs: envs}
+	rec := &recOCI{v: v, in: in}
+	obj := copyMap(md)
+	pcfg := map[string]string{"c01-config": "value"}
+	fr := &frame{}
+	fr.add("UserMetadata", obj)
+	fr.add("PluginConfig", pcfg)
+	got, _, verr := notation.Verify(context.Background(), rec, repo, notation.VerifyOptions{ArtifactReference: TestRef, MaxSignatureAttempts: 50, UserMetadata: obj, PluginConfig: pcfg})
+	anyOK := false
+	for _, o := range rec.obs {
+		if o.err == nil {
+			anyOK = true
+		}
+	}
+	what := fmt.Sprintf("notation.Verify over [%s]", name)
+	for j, e := range envs {
+		if j >= len(rec.obs) {
+			// not reached (an earlier signature verified)
+			r.id++
+			r.rng.Bool()
+			r.rng.Bool()
+			continue
+		}
+		if !bytes.Equal(rec.sigs[j], e.bytes) {
+			panic("c01: listing: signatures verified out of listing order")
+		}
+		d := tgtOf(rec.descs[j])
+		k := &kase{Family: "repository", History: fmt.Sprintf("%s signature %d/%d", what, j+1, len(envs)), Env: e, Kind: "oci", Cfg: c, Md: copyMap(md),
+			What: "listed-for-base-artifact", Desc: &d, Via: "notation.Verify", SharedMd: true, pre: rec.obs[j]}
+		my := r.id
+		r.exec(k, &shared{v: v, in: in})
+		if j == 0 && r.cw.Want(my) {
+			if ch := fr.changed(); len(ch) > 0 {
+				r.cw.ImplViolation(my, "a map owned by the caller was changed by notation.Verify: "+strings.Join(ch, "; "), k, "")
+			}
+			if (verr == nil) != anyOK {
+				r.cw.ImplViolation(my, fmt.Sprintf("%s returned error %v although the signatures verified individually: %v", what, verr, anyOK), k, "")
+			}
+			if verr == nil && !(got.Digest == base.Digest && got.Size == base.Size && got.MediaType == base.MediaType) {
+				r.cw.ImplViolation(my, what+" succeeded with a descriptor other than the resolved one", k, "")
+			}
+		}
+	}
+	r.cw.Count("history", "repository/"+name)
+}
+
 func (r *runner) exec(k *kase, sh *shared) {
 	my := r.id
 	r.id++
@@ -439,6 +628,7 @@ func (r *runner) exec(k *kase, sh *shared) {
 		levelValid = false
 	}
 	before := in.count()
+	fr := &frame{}
 	// the abstracted rest
 	k.Rest = "irrelevant"
 	if levelValid && k.Cfg.Level != "skip" && f.intact() {
@@ -464,13 +654,29 @@ func (r *runner) exec(k *kase, sh *shared) {
 		var out *notation.VerificationOutcome
 		var err error
 		ctx := context.Background()
+		// the caller's maps: the required metadata (one object possibly shared with
+		// earlier calls of a history), the plugin configuration, the descriptor's annotations
+		passMd := copyMap(k.Md)
+		if k.mdObj != nil {
+			passMd = k.mdObj
+			k.SharedMd = true
+		}
+		pcfg := map[string]string{"c01-config": "value"}
+		fr.add("UserMetadata", passMd)
+		fr.add("PluginConfig", pcfg)
 		switch k.Kind {
 		case "oci":
-			d := ocispec.Descriptor{MediaType: k.Desc.MT, Digest: digest.Digest(k.Desc.Dg), Size: k.Desc.Sz, Annotations: k.Desc.Ann}
-			out, err = v.Verify(ctx, d, e.bytes, notation.VerifierVerifyOptions{ArtifactReference: TestRef, SignatureMediaType: e.Format, UserMetadata: k.Md})
+			if k.pre != nil {
+				out, err = k.pre.out, k.pre.err
+			} else {
+				annObj := copyMap(k.Desc.Ann)
+				fr.add("descriptor annotations", annObj)
+				d := ocispec.Descriptor{MediaType: k.Desc.MT, Digest: digest.Digest(k.Desc.Dg), Size: k.Desc.Sz, Annotations: annObj}
+				out, err = v.Verify(ctx, d, e.bytes, notation.VerifierVerifyOptions{ArtifactReference: TestRef, SignatureMediaType: e.Format, UserMetadata: passMd, PluginConfig: pcfg})
+			}
 			errTerm = classify(err, out)
 		case "blob":
-			out, err = v.VerifyBlob(ctx, genFunc(*k.Gen), e.bytes, notation.BlobVerifierVerifyOptions{SignatureMediaType: e.Format, UserMetadata: k.Md, TrustPolicyName: blobPolicyName})
+			out, err = v.VerifyBlob(ctx, genFunc(*k.Gen), e.bytes, notation.BlobVerifierVerifyOptions{SignatureMediaType: e.Format, UserMetadata: passMd, PluginConfig: pcfg, TrustPolicyName: blobPolicyName})
 			errTerm = classify(err, out)
 		case "top":
 			b := k.Blob
@@ -489,7 +695,7 @@ func (r *runner) exec(k *kase, sh *shared) {
 			rec := &recVerifier{v: v}
 			var d ocispec.Descriptor
 			d, out, err = notation.VerifyBlob(ctx, rec, rd, sig, notation.VerifyBlobOptions{
-				BlobVerifierVerifyOptions: notation.BlobVerifierVerifyOptions{SignatureMediaType: smt, UserMetadata: k.Md, TrustPolicyName: blobPolicyName},
+				BlobVerifierVerifyOptions: notation.BlobVerifierVerifyOptions{SignatureMediaType: smt, UserMetadata: passMd, PluginConfig: pcfg, TrustPolicyName: blobPolicyName},
 				ContentMediaType:          b.MT})
 			switch {
 			case err == nil:
@@ -516,8 +722,14 @@ func (r *runner) exec(k *kase, sh *shared) {
 		}
 	}
 	k.ObsTouched = in.count() > before
+	if k.pre != nil {
+		k.ObsTouched = k.pre.touched
+	}
 	if !wanted {
 		return
+	}
+	if ch := fr.changed(); len(ch) > 0 {
+		r.cw.ImplViolation(my, "a map owned by the caller was changed by the verification call: "+strings.Join(ch, "; "), k, "")
 	}
 	// input term
 	var call string
@@ -1472,6 +1684,59 @@ func runC01(a *Args) error {
 				strictA := cfg{Level: "strict", Store: 0}
 				r.history("untrusted-after-trusted/"+kind, strictA, []*kase{
 					step(A, kind, "equal", eqD, nil), step(X, kind, "equal", eqD, nil), step(A, kind, "equal", eqD, nil), step(X, kind, "equal", eqD, k1)})
+			}
+			// ONE required-metadata map object used for several calls: the library must not edit it
+			A2 := w.sign(format, "ec256", payloadJSON(tgt{MT: eqD.MT, Dg: eqD.Dg, Sz: eqD.Sz, Ann: map[string]string{"k2": "v2"}}), "", false, "fresh(annotation k2 only)")
+			OM := w.sign(format, "ec256", payloadJSON(tgt{MT: eqD.MT, Dg: flipHex(eqD.Dg), Sz: eqD.Sz + 100, Ann: annSets[2]}), "", false, "fresh(other target, k1=v1, k2=v2)")
+			omD := tgt{MT: eqD.MT, Dg: flipHex(eqD.Dg), Sz: eqD.Sz + 100}
+			sh := func(obj map[string]string, ks ...*kase) []*kase {
+				for _, k := range ks {
+					k.Md = copyMap(obj)
+					k.mdObj = obj
+				}
+				return ks
+			}
+			for _, kind := range []string{"oci", "blob"} {
+				nextCfg := func() cfg { hi++; return goodCfg(rng, hi%24) }
+				r.history("shared-metadata-map/carried-then-lacking/"+kind, nextCfg(), sh(map[string]string{"k1": "v1"},
+					step(A, kind, "equal", eqD, nil), step(B, kind, "equal", eqD, nil), step(A1, kind, "equal", eqD, nil), step(A2, kind, "equal", eqD, nil)))
+				r.history("shared-metadata-map/two-pairs-carried-then-lacking/"+kind, nextCfg(), sh(map[string]string{"k1": "v1", "k2": "v2"},
+					step(A, kind, "equal", eqD, nil), step(B, kind, "equal", eqD, nil), step(A, kind, "equal", eqD, nil)))
+				r.history("shared-metadata-map/partial-k1-then-k2/"+kind, nextCfg(), sh(map[string]string{"k1": "v1", "k2": "v2"},
+					step(A1, kind, "equal", eqD, nil), step(A2, kind, "equal", eqD, nil), step(B, kind, "equal", eqD, nil), step(A, kind, "equal", eqD, nil)))
+				r.history("shared-metadata-map/partial-k2-then-k1/"+kind, nextCfg(), sh(map[string]string{"k1": "v1", "k2": "v2"},
+					step(A2, kind, "equal", eqD, nil), step(A1, kind, "equal", eqD, nil), step(B, kind, "equal", eqD, nil)))
+				r.history("shared-metadata-map/other-artifact-then-lacking/"+kind, nextCfg(), sh(map[string]string{"k1": "v1"},
+					step(OM, kind, "equal-to-A", eqD, nil), step(B, kind, "equal", eqD, nil), step(OM, kind, "equal", omD, nil), step(B, kind, "equal", eqD, nil)))
+				r.history("shared-metadata-map/failing-then-lacking/"+kind, nextCfg(), sh(map[string]string{"k1": "v1", "k3": "v3"},
+					step(A, kind, "equal", eqD, nil), step(O, kind, "equal", otherD, nil), step(B, kind, "equal", eqD, nil)))
+			}
+			hi++
+			r.history("shared-metadata-map/blob-content", goodCfg(rng, hi%24), sh(map[string]string{"k1": "v1"},
+				top(BL, "equal", content, "text/plain", nil), top(BL0, "equal", content, "text/plain", nil), top(BL, "equal", content, "", nil), top(BL0, "equal", content, "", nil)))
+			// one notation.Verify call over a repository listing several signatures
+			lists := []struct {
+				name string
+				envs []*envelope
+				md   map[string]string
+			}{
+				{"other-artifact-with-metadata, this-artifact-without", []*envelope{OM, B}, k1},
+				{"this-artifact-without, other-artifact-with-metadata", []*envelope{B, OM}, k1},
+				{"other-artifact-with-metadata, this-artifact-without (two pairs)", []*envelope{OM, B}, k12},
+				{"k1-only, k2-only", []*envelope{A1, A2}, k12},
+				{"k2-only, k1-only", []*envelope{A2, A1}, k12},
+				{"k1-only, k2-only, without", []*envelope{A1, A2, B}, k12},
+				{"other-artifact-with-metadata, k1-only, without, both", []*envelope{OM, A1, B, A}, k12},
+				{"other-artifact-with-metadata, without, both", []*envelope{OM, B, A}, k1},
+				{"tampered, other-artifact, without", []*envelope{T, O, B}, k3},
+				{"other-artifact-with-k3, without, both", []*envelope{O, B, A}, k3},
+				{"without, both (no metadata required)", []*envelope{OM, B, A}, nil},
+				{"both, without", []*envelope{A, B}, k1},
+				{"wrong-content-type, k1-only, without", []*envelope{CT, A1, B}, k12},
+			}
+			for _, l := range lists {
+				hi++
+				r.listing(l.name, goodCfg(rng, hi%24), l.envs, l.md)
 			}
 			// notation.VerifyBlob: the blob decides, call by call
 			hi++
